@@ -243,6 +243,11 @@ def stream_io(c, N):
         case["ops"] = ops
         cases.append((case, obs, res, series, ts, k0))
         lines.append({"op": "axis", "dts": dts, "ref": sec(refdt)})
+        c0 = [v for (mm, vv), v in series if mm == 0 and vv == "c"]
+        um = [v for (mm, vv), v in series if mm == 0 and vv == "u_Max"]
+        lines.append({"op": "history", "ts": ts, "values": wire_vals(c0[-1] if c0 else [NAN] * n)})
+        lines.append({"op": "bound", "ts": ts, "values": wire_vals(um[-1] if um else [NAN] * n), "lower": False,
+                      "big": fr(BIG)})
         init = [[] for _ in range(case["E"])]
         for (m, var), vals in series:
             init[m] = [e for e in init[m] if e[0] != VARS.index(var)] + [[VARS.index(var), wire_vals(vals)]]
@@ -312,7 +317,7 @@ def stream_io(c, N):
         # ---------------- correspondence
         if outs is None:
             continue
-        ma, mo = outs[2 * k], outs[2 * k + 1]
+        ma, mh, mb, mo = outs[4 * k], outs[4 * k + 1], outs[4 * k + 2], outs[4 * k + 3]
         if ma == "raise" or obs["axis"][0] == "raise":
             if (ma == "raise") != (obs["axis"][0] == "raise" or obs["pre"] == "raise"):
                 c.disagree("axis raise/value", case, ma, obs["axis"])
@@ -323,6 +328,15 @@ def stream_io(c, N):
         for m, h in obs["history"].items():
             if h and "c" in h and len(h["c"][0]) != ma["hist_len"]:
                 c.disagree("history length", case, ma["hist_len"], h["c"])
+        h0 = obs["history"].get(0)
+        if h0 and "c" in h0 and any(mm == 0 and vv == "c" for (mm, vv), _ in series):
+            if [float(x) for x in mh["times"]] != h0["c"][0] or not same_wire(mh["values"], h0["c"][1]):
+                c.disagree("history of c (member 0)", case, mh, h0["c"])
+        b = obs.get("bounds")
+        if b and "u" in b and b["u"][1] is not None and any(mm == 0 and vv == "u_Max" for (mm, vv), _ in series) \
+                and not any(o["op"] == "set" and VARS[o["v"]] == "u_Max" and o["m"] == 0 for o in case["ops"]):
+            if [float(x) for x in mb["times"]] != b["u"][1][0] or not same_wire(mb["values"], b["u"][1][1]):
+                c.disagree("upper bound series of u", case, mb, b["u"][1])
         if len(mo) != len(res) or not all((a == "raise" and b == "raise") or (a != "raise" and b != "raise" and same_wire(a, b))
                                            for a, b in zip(mo, res)):
             c.disagree("set/get sequence", case, mo, res)
@@ -355,11 +369,11 @@ def run(c):
         "their own coarser grid onto the export rows is C19's theorem, not repeated here.  Corpus: F15 (witness "
         "theorem), F45, F46 inputs are ordinary cases.")
     c.prove()
-    stream_io(c, c.n(250, 3000))
+    stream_io(c, c.n(250, 8000))
     tmp = tempfile.mkdtemp(prefix="c12_")
     try:
-        MB.stream_backends(c, c.n(16, 150), tmp)
-        MB.stream_simulation(c, c.n(12, 80), tmp)
+        MB.stream_backends(c, c.n(16, 350), tmp)
+        MB.stream_simulation(c, c.n(12, 200), tmp)
         MB.corpus(c, tmp)
     finally:
         shutil.rmtree(tmp, ignore_errors=True)
